@@ -69,15 +69,97 @@ def chunk_size_of(env, cid, n):
 
 
 class JsonDoc(str):
+    """What json.dumps returns in the model: an opaque text that carries the document.  Two texts are equal iff the
+    documents render to the same characters: same shapes, same leaf classes (1 and 1.0 differ, True and 1 differ), same
+    key order unless both were produced with sort_keys."""
     payload = None
+    sort_keys = False
+
+    def __eq__(self, o):
+        if not isinstance(o, JsonDoc):
+            return False
+        return _json_text_eq(self.payload, o.payload, self.sort_keys and o.sort_keys)
+
+    def __ne__(self, o):
+        r = self.__eq__(o)
+        return (not r) if isinstance(r, bool) else r.neg()
+
+    def __hash__(self):
+        return 11
+
+
+def _json_text_eq(a, b, sort_keys):
+    from . import logic as L
+    ta, tb = type(a), type(b)
+    if ta in (list, tuple) or tb in (list, tuple):
+        if ta not in (list, tuple) or tb not in (list, tuple) or len(a) != len(b):
+            return False
+        return L.and_(*[_json_text_eq(x, y, sort_keys) for x, y in zip(a, b)])
+    if ta is dict or tb is dict:
+        if ta is not dict or tb is not dict or len(a) != len(b):
+            return False
+        for k in list(a) + list(b):
+            if k.__class__ is not str:
+                raise Unmodelled('json.dumps of a document with non-string keys (model)')
+        if not sort_keys:
+            return L.and_(*[L.and_(L.eq(ka, kb), _json_text_eq(a[ka], b[kb], sort_keys)) for ka, kb in zip(a, b)])
+        conds = []
+        for ka in a:
+            hit = None
+            for kb in b:
+                if bool(L.eq(ka, kb)):
+                    hit = kb
+                    break
+            if hit is None:
+                return False
+            conds.append(_json_text_eq(a[ka], b[hit], sort_keys))
+        return L.and_(*conds)
+    if a is None or b is None:
+        return a is b
+    if a.__class__ is not b.__class__:
+        return False
+    if a.__class__ is float:
+        # the characters json writes for a float are its repr (-0.0 and 0.0 differ)
+        if ta is float and tb is float:
+            return repr(a) == repr(b)
+        from .proxies import sym_repr
+        return L.eq(sym_repr(a) if is_sym(a) else sym_repr_concrete(a), sym_repr(b) if is_sym(b) else sym_repr_concrete(b))
+    return L.eq(a, b, exact_types=True)
+
+
+def sym_repr_concrete(x):
+    from .proxies import lit
+    return lit(repr(x))
+
+
+def _jkey(k):
+    """the string json.dumps writes for a dict key"""
+    if k.__class__ is str:
+        return k
+    if is_sym(k):
+        from .proxies import sym_repr, SymBool
+        if type(k) is SymBool:
+            return 'true' if bool(k) else 'false'
+        return sym_repr(k)
+    if k is None:
+        return 'null'
+    if k is True or k is False:
+        return 'true' if k else 'false'
+    if isinstance(k, (int, float, str)):
+        import json as _j
+        return list(_j.loads(_j.dumps({k: None})).keys())[0]
+    raise TypeError('keys must be str, int, float, bool or None, not %s' % type(k).__name__)
 
 
 def jcopy(v):
-    """JSON round trip on sanitised values: tuples -> lists, fresh containers,
+    """JSON round trip: tuples -> lists, keys stringified (later duplicates win), fresh containers,
     leaves (incl. proxies) kept."""
     t = type(v)
     if t is dict:
-        return {k: jcopy(x) for k, x in v.items()}
+        out = {}
+        for k, x in v.items():
+            out[_jkey(k)] = jcopy(x)
+        return out
     if t in (list, tuple):
         return [jcopy(x) for x in v]
     return v
@@ -334,6 +416,7 @@ class ModelEnv(BaseEnv):
         def jdumps(obj, **kw):
             d = JsonDoc('<json>')
             d.payload = jcopy(obj)
+            d.sort_keys = bool(kw.get('sort_keys'))
             return d
 
         def jload(f):
